@@ -8,11 +8,5 @@ ENGINES = [
     {"name": "rapidcheck-tape", "path": "kit/main.cpp", "serves_properties": ["C02"], "kind_free_text": "rapidcheck generates choice tapes (vector<uint32>) consumed by imperative generators; rapidcheck + own reducer shrink the tape; replay file = tape"},
 ]
 NOT_CLAIMED = {}
-CLAIMS = {
-    "C02": {
-        "engine": "rapidcheck-tape",
-        "technique": "property-based testing: generated valid and hostile-text models, print/parse round trip against an independent canonical dump",
-        "text": "Random exploration (tens of thousands of generated models per run, all features of the statement) of the print->parse round trip with an oracle that shares no code with Printer/Parser: own dump through public getters, own MathML canonicaliser, libxml2 well-formedness check. Finds content loss, escaping and issue-reporting defects; cannot show absence.",
-        "note": "Trusts libxml2 (same version the library links), the harness's dump/canonicaliser and the validity of the model generator (validator consulted lazily before a validator-only claim is judged).",
-    },
-}
+import plans as _plans
+CLAIMS = _plans.CLAIMS
